@@ -207,6 +207,15 @@ func init() {
 			c := c04Gen(ctx.R, i)
 			one(&c)
 		}
+		// derivations that differ only just (invalid UTF-8 bytes, spellings the sanitizer shortens,
+		// names that repeat the prefix); drawn from a generator of their own so that the cases of
+		// the other streams stay what they were
+		tr := NewRng(ctx.Seed*0x9E3779B97F4A7C15 + 0x7715)
+		n = ctx.N(150, 6000)
+		for i := 0; i < n; i++ {
+			c := derivTwinsCase(tr, i)
+			one(&c)
+		}
 		// names and tags of a derivation must also be right when scopes are obtained concurrently
 		// (schedule-controlled registry scenarios: every delivery is checked against the tags of
 		// the derivation it was recorded through; direct predicate)
